@@ -127,8 +127,8 @@ func (o *outline) sections(depth, parent int) {
 		if i > 0 && lv > parent+1 && r.Chance(1, 8) {
 			lv = r.Range(parent+1, lv-1)
 		}
-		h := lelem{Kind: "h", Level: lv, Text: pad(r, o.g.text("h", r.Range(1, 3)))}
-		if r.Chance(1, 12) {
+		h := lelem{Kind: "h", Level: lv, Text: o.g.heading(1, 3)}
+		if r.Chance(1, o.g.tocChance(12)) {
 			h.TOC = true
 		}
 		o.add(h)
@@ -141,8 +141,8 @@ func (o *outline) sections(depth, parent int) {
 	}
 }
 
-func genNested(r *hx.Rng, sz sizeCase) (ldoc, *outline) {
-	o := &outline{r: r, g: &tokGen{r: r}, sz: sz, heads: 60, budget: 4000}
+func genNested(r *hx.Rng, sz sizeCase, repeat bool) (ldoc, *outline) {
+	o := &outline{r: r, g: &tokGen{r: r, repeat: repeat}, sz: sz, heads: 60, budget: 4000}
 	o.maxDepth = hx.Pick(r, []int{2, 3, 4, 4, 5, 5, 6, 6})
 	o.d.AddPage = r.Chance(1, 4)
 	if r.Bool() {
@@ -195,7 +195,7 @@ func runNested(c *hx.Ctx, idx int) {
 	r := c.Rng.Fork(uint64(idx))
 	sz := pickSize(r)
 	sz.CC.MinHeadingLevel = r.Range(1, 6)
-	d, o := genNested(r, sz)
+	d, o := genNested(r, sz, repeatIdx(idx))
 	k := kase{Seed: c.Seed, Index: idx, Mode: "nested"}
 	n := textBytes(d)
 	tie := func() bool {
@@ -210,6 +210,11 @@ func runNested(c *hx.Ctx, idx int) {
 	for ml := 1; ml <= 6; ml++ {
 		lc := nestedLayCfg(r, ml)
 		runLayout(c, k, d, lc, (ml == tied || ml == 6) && tie())
+	}
+	if repeatIdx(idx) {
+		countRepeats(c, "nested-repeat", d)
+		c.Case("nested"+sz.Name+docWire(d), true)
+		return
 	}
 	c.Count(fmt.Sprintf("nested/max-depth=%d", o.maxDepth))
 	switch {
